@@ -162,3 +162,100 @@ func VH14a_backoff() {
 	verif.Assert(len(td.Dials) == n, lab+"/attempt-started-after-socket-close")
 	verif.Reach("done")
 }
+
+// VH14e_burst: a started dialer (synchronous or asynchronous, its peer present
+// or absent). K of {its connection is lost; its pending redial timer fires; the
+// dialer is closed; the socket is closed; the peer starts / stops refusing}
+// happen at the same moment, under every schedule in which one goroutine stalls
+// at one synchronisation point until the others are at rest. Afterwards: once a
+// Close has returned no further connection attempt is started and no timer of
+// the dialer remains; otherwise the dialer is still at work -- a lost
+// connection is re-established after at least the reconnect time, without any
+// action of the application.
+func VH14e_burst() {
+	K := verif.Param("K", 2)
+	lab := "C14/burst"
+	rp := &okProto{}
+	sock := protocol.MakeSocket(rp)
+	vt.Install()
+	asynch := verif.Choice("asynch", 2) == 1
+	r := 100 * time.Millisecond
+	d, err := sock.NewDialer("vt://peer", map[string]interface{}{
+		mangos.OptionReconnectTime: r, mangos.OptionMaxReconnectTime: time.Duration(0), mangos.OptionDialAsynch: asynch})
+	verif.Assert(err == nil, lab+"/new-dialer")
+	td := vt.T.Dialers[0]
+	refusing := verif.Choice("peer-absent-at-first", 2) == 1 && asynch
+	td.Outcome = func(n int) (*vt.Pipe, error) {
+		if refusing {
+			return nil, mangos.ErrConnRefused
+		}
+		return vt.NewPipe(vt.T, "c"), nil
+	}
+	verif.Assert(d.Dial() == nil, lab+"/dial")
+	verif.Quiesce()
+	closedD, closedS := false, false
+	var cg []*verif.G
+	lostAt := time.Duration(-1)
+	last := -1
+	for k := 0; k < K; k++ {
+		ev := verif.Choice("ev", 5)
+		verif.Assume(ev > last)
+		last = ev
+		switch ev {
+		case 0:
+			verif.Assume(len(td.Pipes) > 0 && !td.Pipes[len(td.Pipes)-1].Closed)
+			td.Pipes[len(td.Pipes)-1].Drop()
+			lostAt = verif.Now()
+		case 1:
+			verif.Assume(verif.PendingTimers() > 0)
+			verif.FireTimerNow()
+		case 2:
+			closedD = true
+			cg = append(cg, verif.Go("close-dialer", func() { d.Close() }))
+		case 3:
+			closedS = true
+			cg = append(cg, verif.Go("close-socket", func() { sock.Close() }))
+		case 4:
+			refusing = !refusing
+		}
+	}
+	verif.Quiesce()
+	for _, g := range cg {
+		verif.Assert(g.Done(), lab+"/close-blocks")
+	}
+	if closedD || closedS {
+		verif.Assert(verif.PendingCallbackTimers() == 0, lab+"/redial-timer-still-armed-after-close")
+		n := len(td.Dials)
+		for i := 0; i < 4; i++ {
+			verif.FireTimer()
+		}
+		verif.Assert(len(td.Dials) == n, lab+"/connection-attempt-started-after-close")
+		if closedS {
+			for _, p := range td.Pipes {
+				verif.Assert(p.Closed, lab+"/connection-left-open-after-socket-close")
+			}
+			verif.Assert(verif.LiveGoroutines() == 0, lab+"/goroutines-left-after-close")
+		}
+		verif.Reach("stopped")
+		if !closedS {
+			sock.Close()
+		}
+		return
+	}
+	// still open: the dialer keeps at it until it has a connection
+	refusing = false
+	have := func() bool { return len(td.Pipes) > 0 && !td.Pipes[len(td.Pipes)-1].Closed }
+	n0 := len(td.Dials)
+	for i := 0; i < 4 && !have(); i++ {
+		verif.Assert(verif.FireTimer(), lab+"/dialer-gave-up-although-open")
+	}
+	verif.Assert(have(), lab+"/connection-not-re-established")
+	if lostAt >= 0 && len(td.Dials) > n0 {
+		verif.Assert(td.Dials[n0] >= lostAt+r, lab+"/redial-sooner-than-the-reconnect-time-after-the-loss")
+	}
+	for i := 1; i < len(td.Dials); i++ {
+		verif.Assert(td.Dials[i] >= td.Dials[i-1]+r, lab+"/attempts-closer-together-than-the-reconnect-time")
+	}
+	verif.Reach("reconnected")
+	sock.Close()
+}
